@@ -738,6 +738,10 @@ inline GenOpts makeProfile(Rng &rng, const std::string &name) {
     // keep the number of density bins per row in the low thousands (width / (5 x height))
     o.rowHeightOverride = o.scale == 1000 ? (int)rng.pick(std::vector<int>{40, 100}) : o.scale == 10000 ? (int)rng.pick(std::vector<int>{100, 400}) : (int)rng.pick(std::vector<int>{400, 1000});
     o.maxCells = std::min(o.maxCells, 20);
+  } else if (name == "big20") {
+    // scaled sizes and coordinates that stay below 2^20 (C11's exactness bound for the float ordering key)
+    o.scale = (int)rng.pick(std::vector<int>{100, 1000, 3000});
+    o.farInit = false; o.maxRows = std::min(o.maxRows, 6);
   } else if (name == "faraway") {
     o.farInit = false;  // keep |coordinates| below 2^28 after the translation applied by the harness
     o.maxNets = 30;
